@@ -37,3 +37,18 @@ Definition code_facts : Prop :=
 
 Lemma code_facts_hold : code_facts.
 Proof. unfold code_facts. repeat split; reflexivity. Qed.
+
+(* Every operation of a transaction object (Get, Put, Delete, the two iterator constructors,
+   Commit, Rollback) is ONE critical section of the object's own mutex: the body starts with
+   mu.Lock(), defers mu.Unlock() and releases the mutex nowhere else (gen/TxFacts.v,
+   tx_mu_whole). The steps of Txn.v are atomic with respect to each other because of this: a
+   finish call from another goroutine (the registry's clean-up, a client that commits with a read
+   outstanding) waits for the operation in flight, so no operation runs after the isolation lock
+   of its transaction has been released. *)
+Definition tx_ops_atomic : bool :=
+  forallb snd tx_mu_whole &&
+  forallb (fun n => existsb (fun r => String.eqb (fst r) n) tx_mu_whole)
+          ["Get"; "Put"; "Delete"; "NewIterator"; "NewRangeIterator"; "Commit"; "Rollback"].
+
+Lemma tx_ops_atomic_ok : tx_ops_atomic = true.
+Proof. vm_compute. reflexivity. Qed.
